@@ -278,6 +278,6 @@ func classifyKickHls(c KickHlsCase) (bool, []string) {
 func TestKickHls(t *testing.T) {
 	pbt.Run(t, pbt.Spec[KickHlsCase]{
 		ID: "C14", Name: "kick-hls", Gen: genKickHls, Run: runKickHls, Classify: classifyKickHls,
-		Quick: 3, Thorough: 25,
+		Quick: 2, Thorough: 25,
 	})
 }
